@@ -176,7 +176,23 @@ func Enum(j *job.Job, s *job.Sink) {
 
 type gen struct{ r *rand.Rand }
 
+// longComment is a block comment of one to five lines (LF or CR LF line ends, tabs and
+// multi-byte characters inside); whatever follows it stands on its closing line.
+func (g *gen) longComment() string {
+	c := "/*"
+	for n := g.r.Intn(5); n >= 0; n-- {
+		c += []string{"", " x", "	y ", "é日", "* /", " // "}[g.r.Intn(6)]
+		if n > 0 {
+			c += []string{"\n", "\n", "\r\n", "\n\n"}[g.r.Intn(4)]
+		}
+	}
+	return c + "*/"
+}
+
 func (g *gen) ws() string {
+	if g.r.Intn(6) == 0 {
+		return []string{" ", "", "\t"}[g.r.Intn(3)] + g.longComment() + []string{" ", "", "\t"}[g.r.Intn(3)]
+	}
 	opts := []string{" ", "  ", "\t", "\n", " \n\t", " /* c */ ", " // x\n", "\r\n", " /* m\n l */ ", "\n\n   ", "\t \t", " /**/ ", "/* é */ "}
 	return opts[g.r.Intn(len(opts))]
 }
@@ -246,7 +262,11 @@ func (g *gen) arg(pattern bool) string {
 	case 2:
 		return "'" + g.word() + " " + g.word() + "'"
 	case 3:
-		return "'" + g.word() + "\n  " + g.word() + "'"
+		sq := "'" + g.word()
+		for n := 1 + g.r.Intn(4); n > 0; n-- {
+			sq += []string{"\n  ", "\n", "\r\n\t", "\n\n "}[g.r.Intn(4)] + g.word()
+		}
+		return sq + "'"
 	case 4:
 		return g.dq(pattern)
 	default:
